@@ -1315,7 +1315,7 @@ func (c *Ctx) c14Fields(handlers []*ssa.Function) {
 						wrong = append(wrong, f.Name())
 					}
 				}
-				if f.Name() == "PosixMillis" && !exprSelects(val, "Date", info, meta) {
+				if f.Name() == "PosixMillis" && !exprSelects(val, "Date", info, meta) && !exprSelects(val, "PosixMillis", info, meta) {
 					wrong = append(wrong, f.Name())
 				}
 			}
@@ -1348,6 +1348,30 @@ func exprSelects(e ast.Expr, name string, info *types.Info, meta *types.Named) b
 				for i := 0; i < ms.NumFields(); i++ {
 					if ms.Field(i) == v {
 						found = true
+					}
+				}
+				// the like-named field of another JSON model record (header := messageHeaderV1(…);
+				// ID: header.ID): that record's own literal is held to this rule
+				if v.Pkg() != nil && (v.Pkg().Path() == eng.Mod+"/pkg/rest/model" || v.Pkg().Path() == eng.Mod+"/pkg/webui") {
+					if bt := info.TypeOf(se.X); bt != nil {
+						if pt, isP := bt.(*types.Pointer); isP {
+							bt = pt.Elem()
+						}
+						if n, isN := bt.(*types.Named); isN {
+							if st, isS := n.Underlying().(*types.Struct); isS {
+								mirrors := 0
+								for i := 0; i < st.NumFields(); i++ {
+									for j := 0; j < ms.NumFields(); j++ {
+										if st.Field(i).Name() == ms.Field(j).Name() {
+											mirrors++
+										}
+									}
+								}
+								if mirrors >= 5 {
+									found = true
+								}
+							}
+						}
 					}
 				}
 			}
